@@ -41,6 +41,9 @@ def run(ctx):
     rules.append(sC35.rule_inout(ctx))
     rules.append(sC35.rule_reftab(ctx))
     rules += [sC35.rule_life(ctx), sC35.rule_ovr(ctx), sC35.rule_errlabel(ctx), sC35.rule_argpair(ctx), sC35.rule_tempkey(ctx), sC35.rule_tempend(ctx), sC35.rule_nanny(ctx)]
+    # round 6 (rules/dD4.py, shared with C22): a reference parked in an unmanaged temp while a child generates code is released on every exit of that child
+    from ..rules import dD4
+    rules += [dD4.rule_parked(ctx), dD4.rule_retlive(ctx)]
     return rules
 
 
